@@ -97,7 +97,12 @@ theorem gen_fresh (g g' : Gen) (b nm : List Char) (h : g.call b = some (g', nm))
     · split at h
       · exact fin _ _ h (fun k nm' hr => (searchFrom_free g _ _ _ k nm' hr).1)
       · rename_i hc
-        exact fin _ _ h (fun k nm' hr => by simp at hr; rw [← hr.2]; simpa using hc)
+        simp only [Option.some.injEq, Prod.mk.injEq] at h
+        obtain ⟨hg, hn⟩ := h
+        subst hn
+        refine ⟨by simpa using hc, ?_, ?_⟩
+        · rw [← hg]; exact addName_conflicting g _ _
+        · intro m hm; rw [← hg]; exact addName_mono g _ _ m hm
 
 /-! ### the key map: stable and injective -/
 
@@ -137,22 +142,23 @@ theorem lookup_none_not_mem {m : KeyMap} {k : String} (h : m.lookup k = none) : 
 theorem map_stable (m m' : KeyMap) (g g' g'' : Gen) (key : String) (p p' : Option String) (n : List Char)
     (h : getOrMake m g key p = some (m', g', n)) :
     getOrMake m' g'' key p' = some (m', g'', n) := by
-  unfold getOrMake at h ⊢
-  cases hl : m.get key with
-  | some n0 =>
-    simp [hl] at h
+  unfold getOrMake at h
+  split at h
+  · rename_i n0 hl
+    simp only [Option.some.injEq, Prod.mk.injEq] at h
     obtain ⟨hm, _, hn⟩ := h
     subst hm; subst hn
-    simp [hl]
-  | none =>
-    simp [hl] at h
-    cases hc : g.call (makeIdentifier ((p.getD "") ++ key).toList) with
-    | none => simp [hc] at h
-    | some r =>
-      simp [hc] at h
+    unfold getOrMake; rw [hl]
+  · rename_i hl
+    simp only at h
+    split at h
+    · cases h
+    · rename_i g1 n1 hc
+      simp only [Option.some.injEq, Prod.mk.injEq] at h
       obtain ⟨hm, _, hn⟩ := h
-      subst hm
-      simp [KeyMap.get, List.lookup, hn]
+      subst hm; subst hn
+      unfold getOrMake
+      simp [KeyMap.get, List.lookup]
 
 theorem norm_conflicting_eq (g : Gen) (a b : List Char) (h : g.norm a = g.norm b) :
     g.conflicting a = g.conflicting b := by simp [Gen.conflicting, h]
@@ -163,18 +169,16 @@ theorem map_injective (m m' : KeyMap) (g g' : Gen) (key : String) (p : Option St
     (hi : MapInv m g) (h : getOrMake m g key p = some (m', g', n)) (hn : g'.caseless = g.caseless) :
     MapInv m' g' := by
   unfold getOrMake at h
-  cases hl : m.get key with
-  | some n0 =>
-    simp [hl] at h
+  split at h
+  · simp only [Option.some.injEq, Prod.mk.injEq] at h
     obtain ⟨hm, hg, _⟩ := h
     subst hm; subst hg; exact hi
-  | none =>
-    simp [hl] at h
-    cases hc : g.call (makeIdentifier ((p.getD "") ++ key).toList) with
-    | none => simp [hc] at h
-    | some r =>
-      obtain ⟨g1, n1⟩ := r
-      simp [hc] at h
+  · rename_i hl
+    simp only at h
+    split at h
+    · cases h
+    · rename_i g1 n1 hc
+      simp only [Option.some.injEq, Prod.mk.injEq] at h
       obtain ⟨hm, hg, hn'⟩ := h
       subst hm; subst hg; subst hn'
       obtain ⟨hfree, htaken, hmono⟩ := gen_fresh g g1 _ n1 hc
@@ -205,5 +209,256 @@ theorem map_injective (m m' : KeyMap) (g g' : Gen) (key : String) (p : Option St
         · subst e1; exact absurd h2 (hnotmem b)
         · subst e2; exact absurd h1 (hnotmem a)
         · exact hi.keys k a b h1 h2
+
+end Dagrt.Names
+
+namespace Dagrt.Names
+
+/-! ### numbered candidates are pairwise different, so the search always succeeds -/
+
+theorem toDigits_inj {a b : Nat} (h : Nat.toDigits 10 a = Nat.toDigits 10 b) : a = b := by
+  have ha := Nat.ofDigitChars_toDigits (b := 10) (n := a) (by decide) (by decide)
+  have hb := Nat.ofDigitChars_toDigits (b := 10) (n := b) (by decide) (by decide)
+  rw [h] at ha; omega
+
+theorem toString_toList (k : Nat) : (toString k).toList = Nat.toDigits 10 k := by
+  simp [toString, Nat.toList_repr]
+
+theorem numbered_inj (base : List Char) {j k : Nat} (h : numbered base j = numbered base k) : j = k := by
+  unfold numbered at h
+  have := List.append_cancel_left h
+  simp [toString_toList] at this
+  exact toDigits_inj this
+
+theorem lowerChar_digit {c : Char} (h : c.isDigit = true) : lowerChar c = c := by
+  unfold lowerChar
+  simp only [Char.isDigit, Bool.and_eq_true, decide_eq_true_eq] at h
+  have h2 : c.val ≤ 57 := h.2
+  split
+  · rename_i hc
+    have : (65 : UInt32) ≤ c.val := hc.1
+    exfalso
+    have a1 : c.val.toNat ≤ 57 := by simpa using UInt32.le_iff_toNat_le.mp h2
+    have a2 : 65 ≤ c.val.toNat := by simpa using UInt32.le_iff_toNat_le.mp this
+    omega
+  · rfl
+
+theorem norm_numbered_inj (g : Gen) (base : List Char) {j k : Nat}
+    (h : g.norm (numbered base j) = g.norm (numbered base k)) : j = k := by
+  unfold Gen.norm at h
+  cases hc : g.caseless with
+  | false => simp [hc] at h; exact numbered_inj base h
+  | true =>
+    simp only [hc, cond_true, numbered, List.map_append, List.map_cons] at h
+    have := List.append_cancel_left h
+    simp only [List.cons.injEq, true_and] at this
+    have hd : ∀ n : Nat, (toString n).toList.map lowerChar = (toString n).toList := by
+      intro n
+      rw [toString_toList]
+      have : List.map lowerChar (Nat.toDigits 10 n) = List.map (fun c => c) (Nat.toDigits 10 n) := by
+        apply List.map_congr_left
+        intro c hc'
+        exact lowerChar_digit (Nat.isDigit_of_mem_toDigits (by decide) (by decide) hc')
+      rw [this]; simp
+    rw [hd, hd, toString_toList, toString_toList] at this
+    exact toDigits_inj this
+
+theorem searchFrom_none (g : Gen) (base : List Char) : ∀ (fuel k : Nat),
+    searchFrom g base fuel k = none → ∀ j, k ≤ j → j < k + fuel → g.conflicting (numbered base j) = true
+  | 0, k, _, j, h1, h2 => by omega
+  | fuel+1, k, h, j, h1, h2 => by
+    unfold searchFrom at h
+    simp only at h
+    split at h
+    · rename_i hc
+      by_cases e : j = k
+      · subst e; exact hc
+      · exact searchFrom_none g base fuel (k + 1) h j (by omega) (by omega)
+    · cases h
+
+/-- with fuel exceeding the number of names in use the search finds a free candidate
+    (pigeonhole: the candidates are pairwise different, also after case folding) -/
+theorem searchFrom_total (g : Gen) (base : List Char) (k fuel : Nat) (hf : g.existing.length < fuel) :
+    ∃ r, searchFrom g base fuel k = some r := by
+  cases hs : searchFrom g base fuel k with
+  | some r => exact ⟨r, rfl⟩
+  | none =>
+    exfalso
+    have hall := searchFrom_none g base fuel k hs
+    let cands := (List.range fuel).map (fun i => g.norm (numbered base (k + i)))
+    have hnd : cands.Nodup := by
+      show List.Pairwise (· ≠ ·) _
+      rw [List.pairwise_map]
+      have hr : (List.range fuel).Pairwise (· ≠ ·) := List.nodup_range
+      apply hr.imp
+      intro a b hab heq
+      have := norm_numbered_inj g base heq
+      omega
+    have hsub : cands ⊆ g.existing := by
+      intro x hx
+      simp only [cands, List.mem_map, List.mem_range] at hx
+      obtain ⟨i, hi, he⟩ := hx
+      have := hall (k + i) (by omega) (by omega)
+      simp only [Gen.conflicting, List.contains_iff_mem] at this
+      rw [← he]; exact this
+    have := List.Nodup.length_le_of_subset hnd hsub
+    simp [cands] at this
+    omega
+
+/-- the generator never fails ("could not find a non-conflicting name" is unreachable) -/
+theorem gen_total (g : Gen) (b : List Char) : ∃ r, g.call b = some r := by
+  unfold Gen.call
+  simp only
+  have key : ∀ base k, ∃ r, searchFrom g base (g.existing.length + 2) k = some r :=
+    fun base k => searchFrom_total g base k _ (by omega)
+  split
+  · rename_i c _
+    obtain ⟨r, hr⟩ := key (g.forcedPrefix ++ b) c
+    rw [hr]; exact ⟨_, rfl⟩
+  · split
+    · rename_i bb c _
+      obtain ⟨r, hr⟩ := key bb c
+      rw [hr]; exact ⟨_, rfl⟩
+    · split
+      · obtain ⟨r, hr⟩ := key (g.forcedPrefix ++ b) 0
+        rw [hr]; exact ⟨_, rfl⟩
+      · exact ⟨_, rfl⟩
+
+end Dagrt.Names
+
+namespace Dagrt.Names
+
+/-! ### shape of generated names -/
+
+theorem mem_takeWhile_prop {α} (p : α → Bool) : ∀ (l : List α) (x : α), x ∈ l.takeWhile p → p x = true
+  | [], _, h => by simp at h
+  | a :: as, x, h => by
+    simp only [List.takeWhile] at h
+    split at h
+    · rename_i hp
+      simp at h
+      rcases h with e | h
+      · subst e; exact hp
+      · exact mem_takeWhile_prop p as x h
+    · simp at h
+
+theorem counterMatch_shape {s base : List Char} {c : Nat} (h : counterMatch s = some (base, c)) :
+    ∃ ds, s = base ++ '_' :: ds ∧ (∀ x ∈ ds, isAsciiDigit x = true) ∧ ∀ x ∈ base, identChar x = true := by
+  unfold counterMatch at h
+  simp only at h
+  split at h
+  · rename_i baseRev hrest
+    split at h
+    · rename_i hcond
+      simp only [Option.some.injEq, Prod.mk.injEq] at h
+      obtain ⟨hb, _⟩ := h
+      refine ⟨(s.reverse.takeWhile isAsciiDigit).reverse, ?_, ?_, ?_⟩
+      · have := List.takeWhile_append_dropWhile (p := isAsciiDigit) (l := s.reverse)
+        rw [hrest] at this
+        have h2 := congrArg List.reverse this
+        simp only [List.reverse_append, List.reverse_cons, List.reverse_reverse] at h2
+        rw [← hb]
+        have h3 : baseRev.reverse ++ '_' :: (List.takeWhile isAsciiDigit s.reverse).reverse = s := by
+          simpa using h2
+        exact h3.symm
+      · intro x hx
+        simp only [List.mem_reverse] at hx
+        exact mem_takeWhile_prop isAsciiDigit _ x hx
+      · intro x hx
+        rw [← hb] at hx
+        simp only [List.mem_reverse] at hx
+        exact List.all_eq_true.mp hcond.2.2 x hx
+    · cases h
+  · cases h
+
+theorem searchFrom_shape (g : Gen) (base : List Char) : ∀ (fuel k k' : Nat) (nm : List Char),
+    searchFrom g base fuel k = some (k', nm) → ∃ j, nm = numbered base j :=
+  fun fuel k k' nm h => (searchFrom_free g base fuel k k' nm h).2
+
+/-- a generated name is the prefixed seed itself, or a numbered candidate built on the prefixed
+    seed or on its part before a trailing `_<digits>` -/
+theorem call_shape (g g' : Gen) (b nm : List Char) (h : g.call b = some (g', nm)) :
+    nm = g.forcedPrefix ++ b ∨
+    (∃ j, nm = numbered (g.forcedPrefix ++ b) j) ∨
+    (∃ base c j, counterMatch (g.forcedPrefix ++ b) = some (base, c) ∧ nm = numbered base j) := by
+  unfold Gen.call at h
+  simp only at h
+  have fin : ∀ (bb : List Char) (r : Option (Nat × List Char)),
+      (match r with
+        | none => none
+        | some (k, nm') => some ({ g with counters := setCounter g.counters bb k }.addName nm', nm')) = some (g', nm) →
+      ∃ k, r = some (k, nm) := by
+    intro bb r hr
+    cases r with
+    | none => simp at hr
+    | some p => obtain ⟨k, nm'⟩ := p; simp at hr; exact ⟨k, by rw [hr.2]⟩
+  split at h
+  · obtain ⟨k, hk⟩ := fin _ _ h
+    exact Or.inr (Or.inl (searchFrom_shape g _ _ _ k nm hk))
+  · split at h
+    · rename_i bb c hm
+      obtain ⟨k, hk⟩ := fin _ _ h
+      obtain ⟨j, hj⟩ := searchFrom_shape g _ _ _ k nm hk
+      exact Or.inr (Or.inr ⟨bb, c, j, hm, hj⟩)
+    · split at h
+      · obtain ⟨k, hk⟩ := fin _ _ h
+        exact Or.inr (Or.inl (searchFrom_shape g _ _ _ k nm hk))
+      · simp only [Option.some.injEq, Prod.mk.injEq] at h
+        exact Or.inl h.2.symm
+
+theorem digits_identChar (k : Nat) : ∀ c ∈ (toString k).toList, identChar c = true := by
+  intro c hc
+  rw [toString_toList] at hc
+  have := Nat.isDigit_of_mem_toDigits (by decide) (by decide) hc
+  simp only [Char.isDigit, Bool.and_eq_true, decide_eq_true_eq] at this
+  simp only [identChar, isAsciiDigit, Bool.or_eq_true, Bool.and_eq_true, decide_eq_true_eq]
+  right; exact this
+
+/-- Python local names: `local` followed by identifier characters only -/
+theorem py_local_shape (g g' : Gen) (x : List Char) (nm : List Char)
+    (hp : g.forcedPrefix = "local".toList) (h : g.call (makeIdentifier x) = some (g', nm)) :
+    ∃ rest, nm = "local".toList ++ rest ∧ ∀ c ∈ rest, identChar c = true := by
+  have hid := makeIdentifier_chars x
+  rcases call_shape g g' _ nm h with h1 | ⟨j, h1⟩ | ⟨base, c, j, hm, h1⟩
+  · exact ⟨makeIdentifier x, by rw [h1, hp], hid⟩
+  · refine ⟨makeIdentifier x ++ '_' :: (toString j).toList, by rw [h1, hp]; simp [numbered], ?_⟩
+    intro c hc; simp at hc
+    rcases hc with h' | h' | h'
+    · exact hid c h'
+    · subst h'; decide
+    · exact digits_identChar j c (by rw [toString_toList]; exact h')
+  · obtain ⟨ds, hs, _, hbase⟩ := counterMatch_shape hm
+    rw [hp] at hs
+    -- "local" ++ ident = base ++ '_' :: ds, and "local" has no underscore: base = "local" ++ a'
+    rcases List.append_eq_append_iff.mp hs with ⟨a', hb, _⟩ | ⟨c', hl, hc'⟩
+    · refine ⟨a' ++ '_' :: (toString j).toList, by rw [h1, hb]; simp [numbered], ?_⟩
+      intro ch hch; simp at hch
+      rcases hch with h' | h' | h'
+      · exact hbase ch (by rw [hb]; simp [h'])
+      · subst h'; decide
+      · exact digits_identChar j ch (by rw [toString_toList]; exact h')
+    · cases c' with
+      | nil =>
+        simp at hl
+        refine ⟨'_' :: (toString j).toList, by rw [h1, ← hl]; simp [numbered], ?_⟩
+        intro ch hch; simp at hch
+        rcases hch with h' | h'
+        · subst h'; decide
+        · exact digits_identChar j ch (by rw [toString_toList]; exact h')
+      | cons y ys =>
+        exfalso
+        simp at hc'
+        have hy : y = '_' := hc'.1.symm
+        subst hy
+        have : '_' ∈ "local".toList := by rw [hl]; simp
+        revert this; decide
+
+/-- no Python keyword starts with `local`, and none contains an underscore -/
+def pyKeywords : List String := ["False", "None", "True", "and", "as", "assert", "async", "await", "break",
+  "class", "continue", "def", "del", "elif", "else", "except", "finally", "for", "from", "global", "if",
+  "import", "in", "is", "lambda", "nonlocal", "not", "or", "pass", "raise", "return", "try", "while", "with", "yield"]
+
+theorem keyword_not_local : ∀ kw ∈ pyKeywords, ("local".toList.isPrefixOf kw.toList) = false := by decide
+theorem keyword_no_underscore : ∀ kw ∈ pyKeywords, kw.toList.contains '_' = false := by decide
 
 end Dagrt.Names
